@@ -20,6 +20,10 @@ RULE = ("exhaustive: every (pair of) sorted multiset(s) of <=2 intervals over 0.
         "numbers), chrom_sizes as superset / floats, positional / keyword / defaulted arguments, the same objects used "
         "twice, inputs compared with a copy taken before the call; the non-coordinate columns are judged by the rep_* clauses "
         "(Python re-statement of the combiners / 'piece carries every field of its row'), coordinates and gene labels by the Lean model and spec. "
+        "MERGE_X (round 5b): 25% of the exhaustive and 90% of the random merge inputs plus 40 draws on an 8-row 3-chromosome table are run again "
+        "as op merge_x: random subset/order of the columns gene/strand/accession/weight/probes/depth (integers), stranded=True in half of "
+        "them, combine= drawn per column from first_of/last_of/join_strings/merge_strands/make_const/max/min/sum, rows shuffled in 30%; "
+        "the WHOLE output table (every column) must equal the Lean model C06X.mergeX and satisfy the Lean spec C06X.mergeXSpecB (x_* clauses, bp in 0..1). "
         "non-trivial = at least two rows interact (overlap/abut/nest) or the output differs from the input; "
         "distinct = distinct (op, input) by hash")
 EXHAUSTIVE = {"quick": True, "thorough": True}
@@ -28,6 +32,8 @@ ASSUMPTIONS = [
     "read by tabio is -- every other input is also run with its rows shuffled",
     "column names are Python identifiers (merge renames others to _N)",
     "merge(stranded=True): the '+' rows go through the Lean model, the whole result through the Python oracle",
+    "op merge_x: numeric extra columns hold integers (weight in 1/8 units); with stranded=True and a combine= entry for `strand` that is "
+    "make_const the x_* spec clauses are not read (the output strand is no longer the group's), model equality still is",
     "subdivide: float `int(i*span/n)` vs exact floor differences are knife-edge (skipped for model equality, still checked by the spec oracle)",
 ]
 TRUSTED_EXTRA = ["pandas groupby/sort_values/searchsorted contracts as modelled in Basic.lean"]
@@ -233,10 +239,29 @@ def gen_cases(rng, tier):
             d["in"]["rep"] = {"opts": {"call": "kw", "twice": True},
                               key: {"extra": list(EXTRA_COLS), "coord": "float", **({"cols": cols} if cols else {})}}
             reps.append(d)
-    return cases + reps
+    return cases + reps + _merge_x_cases(rng, tier, cases)
+
+
+def _merge_x_cases(rng, tier, cases):
+    """round 5b: merge(bp, stranded, combine) on tables with extra columns, every column judged by the Lean model / spec"""
+    from .. import c06_mergex as X
+    out = []
+    for c in cases:
+        if c["op"] != "merge" or c["in"].get("rep"):
+            continue
+        if rng.random() < (0.9 if c.get("tag", "").startswith("random") else 0.25):
+            out.append(X.make_case(rng, c["in"]["t"], c["in"]["bp"], "mergex-" + c.get("tag", "")))
+    rich = [["chr1", 0, 10, "a"], ["chr1", 5, 15, "b"], ["chr1", 12, 18, "b"], ["chr1", 20, 30, "c"], ["chr2", 1, 4, "d"],
+            ["chr2", 2, 6, "e"], ["chr10", 3, 9, "f"], ["chr10", 3, 9, "g"]]
+    for _ in range(40 if tier == "quick" else 200):
+        out.append(X.make_case(rng, rich, rng.choice([0, 0, 1, 2]), "mergex-rich"))
+    return out
 
 
 def run_impl(case):
+    if case["op"] == "merge_x":
+        from .. import c06_mergex as X
+        return X.run(case)
     T.SUB = case["in"].get("sub")  # tables built as filtered subsets of larger ones (index labels != positions)
     try:
         if case["in"].get("rep"):
